@@ -57,6 +57,63 @@ func (r request) header(name string) (string, bool) {
 	return "", false
 }
 
+// claim returns the values of the verified JWT claim at path (joined by "."), as the jwt_authn filter exposes
+// them in dynamic metadata.
+func (r request) claim(path string) ([]string, bool) {
+	var out []string
+	for _, c := range r.claims {
+		if c.k == path {
+			out = append(out, c.v)
+		}
+	}
+	return out, len(out) > 0
+}
+
+// metaStringMatcher digs the StringMatcher out of the value Istio emits for a JWT claim:
+// or_match[list_match{one_of: string_match}, string_match].
+func metaStringMatcher(v *matcher.ValueMatcher) *matcher.StringMatcher {
+	switch p := v.GetMatchPattern().(type) {
+	case *matcher.ValueMatcher_StringMatch:
+		return p.StringMatch
+	case *matcher.ValueMatcher_ListMatch:
+		return metaStringMatcher(p.ListMatch.GetOneOf())
+	case *matcher.ValueMatcher_OrMatch:
+		for _, x := range p.OrMatch.ValueMatchers {
+			if sm := metaStringMatcher(x); sm != nil {
+				return sm
+			}
+		}
+	}
+	return nil
+}
+
+func metaPath(m *matcher.MetadataMatcher) string {
+	var ks []string
+	for i, seg := range m.Path {
+		if i == 0 {
+			continue // "payload"
+		}
+		ks = append(ks, seg.GetKey())
+	}
+	return strings.Join(ks, ".")
+}
+
+// metadataMatches: the claim is a string matching the pattern or a list containing a matching string; absent
+// metadata does not match; `invert` inverts.
+func metadataMatches(m *matcher.MetadataMatcher, r request) bool {
+	res := false
+	if vals, ok := r.claim(metaPath(m)); ok && m.Filter == "envoy.filters.http.jwt_authn" {
+		if sm := metaStringMatcher(m.Value); sm != nil {
+			for _, v := range vals {
+				if stringMatches(sm, v) {
+					res = true
+				}
+			}
+		}
+	}
+	return res != m.Invert
+}
+
 func (r request) queryParam(name string) (string, bool) {
 	for _, q := range r.query {
 		if q.k == name {
@@ -174,8 +231,10 @@ func routeMatches(m *route.RouteMatch, r request) bool {
 			return false
 		}
 	}
-	if len(m.DynamicMetadata) > 0 {
-		return false // outside the modelled grammar
+	for _, dm := range m.DynamicMetadata {
+		if !metadataMatches(dm, r) {
+			return false
+		}
 	}
 	return true
 }
@@ -375,7 +434,15 @@ func showRoute(r *route.Route) string {
 	}
 	dm := ""
 	if len(m.DynamicMetadata) > 0 {
-		dm = "|dm=" + strconv.Itoa(len(m.DynamicMetadata))
+		ms := make([]string, len(m.DynamicMetadata))
+		for i, x := range m.DynamicMetadata {
+			spec := "nil"
+			if sm := metaStringMatcher(x.Value); sm != nil {
+				spec = showStringMatcher(sm)
+			}
+			ms[i] = wire.Enc(metaPath(x)) + "!" + spec + "!" + wire.B(x.Invert)
+		}
+		dm = "|M:" + strings.Join(ms, ",")
 	}
 	return "R[" + wire.Enc(r.Name) + "|" + path + "|cs=" + cs + "|H:" + joinOrDash(hs) + "|Q:" + joinOrDash(qs) + dm + "|A:" + showAction(r) + "]"
 }
